@@ -153,6 +153,7 @@ type World struct {
 	// problems recorded by earlier (crashed) simulations of this world
 	PastProblems []simrt.Problem
 	BootErr      string
+	InitKillStep uint64 // kill the next boot at this step of NewTeamserver (database creation)
 	BootKillStep uint64 // kill the process at this scheduler step of the next boot (0 = never)
 	BootKilled   bool
 	oldDBs       []any
@@ -209,7 +210,21 @@ func (w *World) Boot() error {
 				bootPanic = r
 			}
 		}()
-		ts := server.NewTeamserver("data/teamserver.db")
+		var ts *server.Teamserver
+		if w.InitKillStep > 0 {
+			// the process is killed while main() creates / opens the database (before Start):
+			// NewTeamserver runs as a task so that the kill point can fall between its statements
+			kill := w.InitKillStep
+			w.InitKillStep = 0
+			t := sim.Spawn("ts-new", simrt.KindGo, "main", func() { ts = server.NewTeamserver("data/teamserver.db") })
+			sim.RunToStep(kill, true)
+			if t.State != simrt.Done {
+				w.BootKilled = true
+				return
+			}
+		} else {
+			ts = server.NewTeamserver("data/teamserver.db")
+		}
 		if ts == nil {
 			bootPanic = "NewTeamserver returned nil"
 			return
@@ -238,6 +253,9 @@ func (w *World) Boot() error {
 	if bootPanic != nil {
 		w.BootErr = fmt.Sprint(bootPanic)
 		return fmt.Errorf("boot: %v", bootPanic)
+	}
+	if w.BootKilled {
+		return nil
 	}
 	w.Main = sim.Spawn("ts-main", simrt.KindGo, "main", func() { w.TS.Start() })
 	if w.BootKillStep > 0 {
